@@ -1,3 +1,255 @@
-import Rtcp.Lemmas.Safe6
+/-
+  C09 — re-encoding a decoded datagram is stable.
+  Proved for every datagram `rtcp.Unmarshal` accepts: marshalling the returned packets never panics (and never
+  diverges) — for every packet type, including TWCC (sizes derived from the consistency theorem C13) and XR
+  (what the reflective reader returns has the shape the writer expects).
+  Idempotence decode∘encode∘decode: proved for the datagrams that are encodings of well-formed packets
+  (C02.rt_datagram + C02.rebytes); for arbitrary accepted inputs it is tied by the `reenc` correspondence
+  (mutated, spliced and resized valid encodings) — stated as partial in the evidence.
+-/
+import Rtcp.Lemmas.NoPanic2
+import Rtcp.Proofs.C02
 namespace Rtcp.C09
+open Rtcp Gen Out
+set_option linter.unusedSimpArgs false
+set_option linter.unusedVariables false
+
+theorem normLoop_exp_lt (gas exp m : Nat) (h : exp < 256) (e' m' : Nat) (hl : rembNormLoop gas exp m = .ok (e', m')) : e' < 256 := by
+  induction gas generalizing exp m with
+  | zero => simp [rembNormLoop] at hl
+  | succ g ih =>
+    unfold rembNormLoop at hl
+    split at hl
+    · exact ih _ _ (Nat.mod_lt _ (by decide)) hl
+    · simp at hl; omega
+
+theorem decBits_lt (e m bits : Nat) (h : rembDecBits e m = .ok bits) : bits < 4294967296 := by
+  unfold rembDecBits at h
+  dsimp only at h
+  obtain ⟨⟨exp, mant⟩, hl, h⟩ := bind_eq_ok.mp h
+  simp at h
+  have hexp : exp < 256 := by
+    split at hl
+    · exact normLoop_exp_lt _ _ _ (Nat.mod_lt _ (by decide)) _ _ hl
+    · simp at hl; rw [← hl.1]; exact Nat.mod_lt _ (by decide)
+  have : mant % 8388608 < 8388608 := Nat.mod_lt _ (by decide)
+  omega
+
+theorem remb_decoded_bits (b : Bytes) (p : Remb) (h : Remb.dec b = .ok p) : p.bitrate < 4294967296 := by
+  unfold Remb.dec at h
+  split at h
+  · cases h
+  · obtain ⟨_, _, h⟩ := bind_eq_ok.mp h
+    split at h
+    · cases h
+    · split at h
+      · cases h
+      · split at h
+        · cases h
+        · obtain ⟨_, _, h⟩ := bind_eq_ok.mp h
+          split at h
+          · cases h
+          · obtain ⟨_, _, h⟩ := bind_eq_ok.mp h
+            dsimp only at h
+            split at h
+            · cases h
+            · split at h
+              · cases h
+              · obtain ⟨_, _, h⟩ := bind_eq_ok.mp h
+                obtain ⟨_, _, h⟩ := bind_eq_ok.mp h
+                split at h
+                · cases h
+                · obtain ⟨_, _, h⟩ := bind_eq_ok.mp h
+                  split at h
+                  · cases h
+                  · obtain ⟨_, _, h⟩ := bind_eq_ok.mp h
+                    split at h
+                    · cases h
+                    · obtain ⟨_, _, h⟩ := bind_eq_ok.mp h
+                      obtain ⟨_, _, h⟩ := bind_eq_ok.mp h
+                      obtain ⟨_, _, h⟩ := bind_eq_ok.mp h
+                      obtain ⟨bits, hb, h⟩ := bind_eq_ok.mp h
+                      obtain ⟨_, _, h⟩ := bind_eq_ok.mp h
+                      simp at h
+                      rw [← h]
+                      exact decBits_lt _ _ _ hb
+
+/-- a decoded XR block can be written back -/
+theorem xr_block_decoded_safe (buf : Bytes) (blk : XRBlock) (rest : Bytes) (h : xrDecBlock buf = .ok (blk, rest)) :
+    blk.setup.enc.Safe := by
+  unfold xrDecBlock at h
+  obtain ⟨⟨hv, es0, r0⟩, hr, h⟩ := bind_eq_ok.mp h
+  dsimp only at h
+  split at h
+  · rename_i bt x bl
+    try dsimp only at h
+    obtain ⟨⟨vs, es, r1⟩, hr1, h⟩ := bind_eq_ok.mp h
+    dsimp only at h
+    split at h
+    · rename_i bt' ts' bl' vals
+      simp at h
+      obtain ⟨hb, _⟩ := h
+      have hkind : blk.kind = xrKindOfType bt := by rw [← hb]; unfold XRBlock.unpack; split <;> rfl
+      have hvals : blk.vals = vals := by rw [← hb]; unfold XRBlock.unpack; split <;> rfl
+      have helems : blk.elems = es := by rw [← hb]; unfold XRBlock.unpack; split <;> rfl
+      unfold XRBlock.enc
+      show (writeItems (layoutOf blk.kind).items blk.setup.scalars blk.elems).Safe
+      rw [hkind, helems]
+      apply writeItems_safe_of_read _ _ _ _ _ (gen_layouts_sliceLast _) hr1
+      simp [XRBlock.scalars, XRBlock.setup, hvals]
+    · cases h
+  · cases h
+
+theorem xr_blocks_decoded_safe (gas : Nat) (buf : Bytes) (bs : List XRBlock) (h : xrDecBlocksP gas buf = (bs, .ok)) :
+    (encXRBlocks (bs.map XRBlock.setup)).Safe := by
+  induction gas generalizing buf bs with
+  | zero => simp [xrDecBlocksP] at h
+  | succ g ih =>
+    unfold xrDecBlocksP at h
+    split at h
+    · simp at h; rw [h]; exact safe_ok _
+    · cases hd : xrDecBlock buf with
+      | ok r =>
+        obtain ⟨blk, rest⟩ := r
+        rw [hd] at h
+        dsimp only at h
+        cases hrec : xrDecBlocksP g rest with
+        | mk bs' st =>
+          rw [hrec] at h
+          simp at h
+          obtain ⟨h1, h2⟩ := h
+          subst h2
+          rw [← h1]
+          simp only [List.map_cons, encXRBlocks]
+          apply safe_bind (xr_block_decoded_safe buf blk rest hd); intro _ _
+          apply safe_bind (ih rest bs' hrec); intro _ _
+          exact safe_ok _
+      | err => rw [hd] at h; simp [Out.status] at h
+      | panic => rw [hd] at h; simp [Out.status] at h
+      | diverge => rw [hd] at h; simp [Out.status] at h
+
+theorem xr_decoded_safe (b : Bytes) (x : XR) (h : XR.dec b = .ok x) : x.enc.Safe := by
+  have ⟨hst, hv⟩ := Status.toOut_eq_ok h
+  unfold XR.decP at hst hv
+  cases hh : Header.dec b with
+  | ok hd =>
+    simp only [hh] at hst hv
+    split at hst
+    · simp at hst
+    · rename_i ht
+      rw [if_neg ht] at hv
+      try dsimp only at hst hv
+      split at hst
+      · simp at hst
+      · rename_i hl
+        rw [if_neg hl] at hv
+        cases hb : xrDecBlocksP (b.length + 1) ((b.drop headerLength).drop 4) with
+        | mk bs st =>
+          rw [hb] at hst hv
+          dsimp only at hst hv
+          subst hst
+          have := xr_blocks_decoded_safe _ _ _ hb
+          rw [← hv]
+          unfold XR.enc
+          dsimp only
+          apply safe_bind (Header.enc_safe _); intro _ _
+          apply safe_bind this; intro _ _
+          exact safe_ok _
+  | err => simp [hh, Out.status] at hst
+  | panic => simp [hh, Out.status] at hst
+  | diverge => simp [hh, Out.status] at hst
+
+/-- **whatever a decoder returned can be marshalled without a panic** -/
+theorem decoded_enc_safe (k : Kind) (f : Bytes) (p : Packet) (h : decKind k f = .ok p) : p.encP.Safe := by
+  cases k <;> simp only [decKind] at h <;> obtain ⟨v, hv, hp⟩ := map_eq_ok.mp h <;> rw [← hp] <;> simp only [Packet.encP]
+  · apply safe_bind (SenderReport.enc_safe v); intro _ _; exact safe_ok _
+  · apply safe_bind (ReceiverReport.enc_safe v); intro _ _; exact safe_ok _
+  · apply safe_bind (SourceDescription.enc_safe v); intro _ _; exact safe_ok _
+  · apply safe_bind (Goodbye.enc_safe v); intro _ _; exact safe_ok _
+  · apply safe_bind (ApplicationDefined.enc_safe v); intro _ _; exact safe_ok _
+  · apply safe_bind (TransportLayerNack.enc_safe v); intro _ _; exact safe_ok _
+  · apply safe_bind (RapidResync.enc_safe v); intro _ _; exact safe_ok _
+  · apply safe_bind (Twcc.enc_of_decoded_safe f v hv); intro _ _; exact safe_ok _
+  · apply safe_bind (Ccfb.enc_safe v); intro _ _; exact safe_ok _
+  · apply safe_bind (PictureLossIndication.enc_safe v); intro _ _; exact safe_ok _
+  · apply safe_bind (SliceLossIndication.enc_safe v); intro _ _; exact safe_ok _
+  · apply safe_bind (Remb.enc_safe v (remb_decoded_bits f v hv)); intro _ _; exact safe_ok _
+  · apply safe_bind (FullIntraRequest.enc_safe v); intro _ _; exact safe_ok _
+  · apply safe_bind (xr_decoded_safe f v hv); intro _ _; exact safe_ok _
+  · exact safe_ok _
+
+theorem loop_packets_decoded (gas : Nat) (b : Bytes) (ps : List Packet) (h : unmarshalLoop gas b = .ok ps) :
+    ∀ p ∈ ps, ∃ k f, decKind k f = .ok p := by
+  induction gas generalizing b ps with
+  | zero => simp [unmarshalLoop] at h
+  | succ g ih =>
+    unfold unmarshalLoop at h
+    split at h
+    · simp at h; rw [h]; simp
+    · obtain ⟨⟨p, n⟩, hp, h⟩ := bind_eq_ok.mp h
+      dsimp only at h
+      obtain ⟨rest, hr, h⟩ := bind_eq_ok.mp h
+      obtain ⟨qs, hq, h⟩ := bind_eq_ok.mp h
+      simp at h
+      rw [← h]
+      intro x hx
+      rcases List.mem_cons.mp hx with hx | hx
+      · rw [hx]
+        unfold unmarshalOne at hp
+        obtain ⟨hd, _, hp⟩ := bind_eq_ok.mp hp
+        dsimp only at hp
+        split at hp
+        · cases hp
+        · obtain ⟨inp, _, hp⟩ := bind_eq_ok.mp hp
+          obtain ⟨q, hq', hp⟩ := bind_eq_ok.mp hp
+          simp at hp
+          exact ⟨_, _, by rw [← hp.1]; exact hq'⟩
+      · exact ih rest qs hq x hx
+
+theorem uencP_safe (ps : List Packet) (h : ∀ p ∈ ps, p.encP.Safe) : (uencP ps).Safe := by
+  induction ps with
+  | nil => exact safe_ok _
+  | cons p ps ih =>
+    unfold uencP
+    apply safe_bind (h p (by simp)); intro _ _
+    apply safe_bind (ih (fun q hq => h q (by simp [hq]))); intro _ _
+    exact safe_ok _
+
+/-- **for every datagram accepted by Unmarshal, marshalling the returned packets never panics** -/
+theorem reenc_no_panic (b : Bytes) (ps : List Packet) (h : udec b = .ok ps) : uenc ps ≠ .panic ∧ uenc ps ≠ .diverge := by
+  unfold udec at h
+  obtain ⟨qs, hq, h⟩ := bind_eq_ok.mp h
+  split at h
+  · cases h
+  · simp at h
+    subst h
+    have hall : ∀ p ∈ qs, p.encP.Safe := by
+      intro p hp
+      obtain ⟨k, f, hk⟩ := loop_packets_decoded _ _ _ hq p hp
+      exact decoded_enc_safe k f p hk
+    have := uencP_safe qs hall
+    unfold uenc
+    have hs : (uencP qs >>= fun x => pure x.1).Safe := by
+      apply safe_bind this; intro _ _; exact safe_ok _
+    exact hs
+
+/-- **idempotence on the encodings of well-formed packets**: decode, re-encode, decode again gives the same list
+and the same bytes -/
+theorem idem_on_wellformed (ps : List Packet) (hne : ps ≠ []) (h : ∀ p ∈ ps, C02.DWF p) :
+    ∃ b, uenc ps = .ok b ∧ udec b = .ok (ps.map C02.quant) ∧ uenc (ps.map C02.quant) = .ok b ∧
+      (uenc (ps.map C02.quant) >>= udec) = .ok ((ps.map C02.quant).map C02.quant) := by
+  have h1 := C02.rt_datagram ps hne h
+  have h2 := C02.rebytes ps h
+  cases hb : uenc ps with
+  | ok b =>
+    rw [hb, bind_ok] at h1
+    refine ⟨b, rfl, h1, by rw [h2, hb], ?_⟩
+    exact C02.rt_datagram (ps.map C02.quant) (by simpa using hne) (by
+      intro p hp
+      obtain ⟨q, hq, hqp⟩ := List.mem_map.mp hp
+      rw [← hqp]; exact C02.quant_DWF q (h q hq))
+  | err => rw [hb] at h1; cases h1
+  | panic => rw [hb] at h1; cases h1
+  | diverge => rw [hb] at h1; cases h1
+
 end Rtcp.C09
